@@ -1,3 +1,4 @@
+mod c06;
 mod c08;
 mod data;
 mod run;
@@ -5,6 +6,7 @@ mod source;
 
 fn main() {
     vf_kit::dispatch! {
+        "c06" => c06::C06,
         "c08" => c08::C08,
     }
 }
